@@ -59,7 +59,7 @@ impl TypeResolver {
     fn extract_result_ok_type(&self, rust_type: &str) -> Option<String> {
         if rust_type.starts_with("Result<") && rust_type.ends_with('>') {
             let inner = &rust_type[7..rust_type.len() - 1];
-            if let Some(comma_pos) = inner.find(',') {
+            if let Some(comma_pos) = Self::find_top_level_comma(inner) {
                 let ok_type = inner[..comma_pos].trim();
                 Some(ok_type.to_string())
             } else {
@@ -127,7 +127,16 @@ impl TypeResolver {
             if inner.trim().is_empty() {
                 return Some(vec![]);
             }
-            let types: Vec<String> = inner.split(',').map(|s| s.trim().to_string()).collect();
+            let mut types = Vec::new();
+            let mut rest = inner;
+            while let Some(comma_pos) = Self::find_top_level_comma(rest) {
+                types.push(rest[..comma_pos].trim().to_string());
+                rest = &rest[comma_pos + 1..];
+            }
+            // A trailing comma, as in `(T,)`, leaves nothing after the last separator
+            if !rest.trim().is_empty() {
+                types.push(rest.trim().to_string());
+            }
             Some(types)
         } else {
             None
@@ -141,24 +150,25 @@ impl TypeResolver {
             .map(|stripped| stripped.to_string())
     }
 
-    /// Parse two type parameters separated by comma (for HashMap, BTreeMap)
-    fn parse_two_type_params(&self, inner: &str) -> Option<(String, String)> {
-        let mut depth = 0;
-        let mut comma_pos = None;
+    /// Find the first comma that is not nested inside `<..>`, `(..)` or `[..]`
+    fn find_top_level_comma(inner: &str) -> Option<usize> {
+        let mut depth = 0i32;
 
         for (i, ch) in inner.char_indices() {
             match ch {
-                '<' => depth += 1,
-                '>' => depth -= 1,
-                ',' if depth == 0 => {
-                    comma_pos = Some(i);
-                    break;
-                }
+                '<' | '(' | '[' => depth += 1,
+                '>' | ')' | ']' => depth -= 1,
+                ',' if depth == 0 => return Some(i),
                 _ => {}
             }
         }
 
-        if let Some(pos) = comma_pos {
+        None
+    }
+
+    /// Parse two type parameters separated by comma (for HashMap, BTreeMap)
+    fn parse_two_type_params(&self, inner: &str) -> Option<(String, String)> {
+        if let Some(pos) = Self::find_top_level_comma(inner) {
             let key_type = inner[..pos].trim().to_string();
             let value_type = inner[pos + 1..].trim().to_string();
             Some((key_type, value_type))
